@@ -378,7 +378,7 @@ def _c11_jobs(tier):
                     runner='valgrind', build='dbg', audit=False, timeout_s=900 if q else 3600,
                     only_actions=['register_flood', 'changed_flood'] if q else None,
                     only_points=['uncached_exit', 'spec_weakref', 'provided_hash', 'name_hash', 'required_hash',
-                                 'generation_attr', 'value_del', 'factory'] if q else None))
+                                 'generation_attr', 'value_del', 'factory', 'super_self'] if q else None))
     if not q:
         out.append(dict(mode='c', shards=8, cases=1, nshards=8, part='script', cfgname='asan', runner='asan', build='asan',
                         audit=False, timeout_s=3600))
